@@ -8,7 +8,7 @@ enum { O_CTX_REG = 1, O_CTX_DEREG, O_FINALIZE, O_DISPATCH, O_QUIT, O_SET_TICK,
        O_TELL, O_PUB, O_BCAST, O_PILL, O_SUB, O_UNSUB,
        O_SRC_REG, O_SRC_DEREG,
        O_BECOME, O_UNBECOME, O_BATCH_SIZE, O_BATCH_TMO, O_BUCKET, O_UNSTASH,
-       O_ARM, O_READY, O_ADVANCE, O_INJECT, O_RELEASE, O_CTXCALL, O_MAX };
+       O_ARM, O_READY, O_ADVANCE, O_INJECT, O_RELEASE, O_CTXCALL, O_RAISE, O_TOUCH, O_ENDCHILD, O_MAX };
 static void audit_srclen(int s, const char *when);
 enum { A_NONE, A_STOP, A_DEREG, A_PAUSE, A_START, A_RESUME, A_TELL, A_PUB, A_QUIT, A_SUB, A_UNSUB, A_STASH, A_UNSTASH, A_BECOME, A_UNBECOME,
        A_RETAIN, A_ERRNO, A_CTXCALL, A_PILL, A_BCAST, A_MAX };
